@@ -582,9 +582,16 @@ fn frac_lit_string(e: &Result<Expression, String>) -> String {
         Ok(Expression::SingleLiteral(f)) => f32_string(*f),
         Ok(Expression::DoubleLiteral(f)) => f64_string(*f),
         Ok(other) => format!("not-a-float-literal {:?}", other),
+        // the parser's own rejection of a decimal beyond the range of the type
+        Err(e) if e == "parse-error Overflow" => "overflow".to_owned(),
         Err(e) => format!("error {}", e),
     }
 }
+
+/// `2^1024 - 2^970`: the first whole number that is not a DOUBLE any more (halfway between the largest DOUBLE
+/// and `2^1024`; the tie goes to the even significand, up). One less still rounds to the largest DOUBLE.
+const DBL_EDGE: &str = "179769313486231580793728971405303415079934132710037826936173778980444968292764750946649017977587207096330286416692887910946555547851940402630657488671505820681908902000708383676273854845817711531764475730270069855571366959622842914819860834936475292719074168444365510704342711559699508093042880177904174497792";
+const DBL_BELOW_EDGE: &str = "179769313486231580793728971405303415079934132710037826936173778980444968292764750946649017977587207096330286416692887910946555547851940402630657488671505820681908902000708383676273854845817711531764475730270069855571366959622842914819860834936475292719074168444365510704342711559699508093042880177904174497791";
 
 /// The decimal expansion of `n * 2^q` as (integer digits, fraction digits), exact; `n * 5^-q` must fit u128
 /// for negative `q`, `n << q` for positive `q`.
@@ -677,7 +684,8 @@ fn frac_cases(rng: &mut Rng, thorough: bool) -> Vec<FracCase> {
         push(&mut out, rng, format!("{}{}", lead, a), format!("{}{}", b, trail), "fraction.dyadic", true);
     }
     // (4) no integer digits, zeros only, very small and very large magnitudes (subnormal range of SINGLE,
-    // the overflow threshold of SINGLE: `340282356779733661637539395458142568448` is the first decimal that is inf)
+    // the overflow thresholds: `340282356779733661637539395458142568448` is the first decimal that is rejected as a
+    // SINGLE, `2^1024 - 2^970` as a DOUBLE; the literal just below each is the largest finite value of the type)
     for (a, b) in [
         ("", "0"),
         ("0", "0"),
@@ -698,6 +706,13 @@ fn frac_cases(rng: &mut Rng, thorough: bool) -> Vec<FracCase> {
         ("340282356779733661637539395458142568447", "9"),
         ("340282356779733661637539395458142568448", "0"),
         ("340282366920938463463374607431768211456", "0"),
+        // the edges of DOUBLE: the largest accepted literals, the first rejected ones, far beyond
+        (DBL_BELOW_EDGE, "9"),
+        (DBL_BELOW_EDGE, "99999999999999999999"),
+        (DBL_EDGE, "0"),
+        (DBL_EDGE, "00000000000000000001"),
+        ("1000000000000000000000000000000000000000000000000000000000000000000000000000000000000000000000000000000000000000000000000000000000000000000000000000000000000000000000000000000000000000000000000000000000000000000000000000000000000000000000000000000000000000000000000000000000000000000000000000000000000000000000", "0"),
+        ("9999999999999999999999999999999999999999999999999999999999999999999999999999999999999999999999999999999999999999999999999999999999999999999999999999999999999999999999999999999999999999999999999999999999999999999999999999999999999999999999999999999999999999999999999999999999999999999999999999999999999999999999999999999999999999999999999999999999999999999999999999999999999999999999999999999999999999", "5"),
         ("", "00000000000000000000000000000000000001"),
         ("", "0000000000000000000000000000000000000117549435"),
         ("", "000000000000000000000000000000000000000000001"),
@@ -1066,6 +1081,91 @@ fn main() {
             });
         }
     }
+    // runs of decimal digits around the end of the DOUBLE range (no fraction): below `2^1024 - 2^970` a DOUBLE
+    // literal (the nearest one: Rust's own parse of the digits), from there on the parse error Overflow; the
+    // property is decided here on the digit strings (length, then lexicographic), the model by `processDec`
+    {
+        let longer = |k: usize| format!("1{}", "0".repeat(k));
+        let mut texts: Vec<String> = vec![
+            DBL_BELOW_EDGE.to_owned(),
+            DBL_EDGE.to_owned(),
+            format!("00{}", DBL_BELOW_EDGE),
+            format!("0{}", DBL_EDGE),
+            // the largest DOUBLE itself and 2^1024
+            "179769313486231570814527423731704356798070567525844996598917476803157260780028538760589558632766878171540458953514382464234321326889464182768467546703537516986049910576551282076245490090389328944075868508455133942304583236903222948165808559332123348274797826204144723168738177180919299881250404026184124858368".to_owned(),
+            "179769313486231590772930519078902473361797697894230657273430081157732675805500963132708477322407536021120113879871393357658789768814416622492847430639474124377767893424865485276302219601246094119453082952085005768838150682342462881473913110540827237163350510684586298239947245938479716304835356329624224137216".to_owned(),
+            longer(307),
+            longer(308),
+            longer(309),
+            longer(400),
+            "9".repeat(308),
+            "9".repeat(309),
+        ];
+        for _ in 0..(if thorough { 400 } else { 60 }) {
+            // random digit strings of 300..320 digits, and the edge with its last digits redrawn
+            let len = rng.range(300, 320) as usize;
+            let mut t: String = (0..len).map(|i| (b'0' + (if i == 0 { rng.range(1, 9) as u64 } else { rng.below(10) }) as u8) as char).collect();
+            if rng.chance(1, 2) {
+                let keep = rng.range(1, 308) as usize;
+                t = format!("{}{}", &DBL_EDGE[..keep], (0..309 - keep).map(|_| (b'0' + rng.below(10) as u8) as char).collect::<String>());
+            }
+            texts.push(t);
+        }
+        let mut cases: Vec<(bool, String)> = vec![];
+        for t in texts {
+            cases.push((false, t.clone()));
+            cases.push((true, t));
+        }
+        let list = |d: &str| format!("({})", d.chars().map(|c| c.to_string()).collect::<Vec<_>>().join(" "));
+        let reqs: Vec<String> = cases.iter().map(|(neg, t)| format!("({} {})", if *neg { "expr.negdecs" } else { "expr.decs" }, list(t))).collect();
+        let answers = ask(&reqs);
+        let mut rejected = 0u64;
+        for ((neg, t), model) in cases.iter().zip(answers.iter()) {
+            let text = format!("{}{}", if *neg { "-" } else { "" }, t);
+            rep.case(Some(text.clone()));
+            rep.bump(if *neg { "literal.dec.huge.neg" } else { "literal.dec.huge" });
+            let stripped = t.trim_start_matches('0');
+            let fits = stripped.len() < DBL_EDGE.len() || (stripped.len() == DBL_EDGE.len() && stripped < DBL_EDGE);
+            // the property: the written value as a DOUBLE (exact digits), or Overflow when no DOUBLE holds it
+            let expected = if fits { format!("(double {}{})", if *neg { "-" } else { "" }, stripped) } else { "overflow".to_owned() };
+            if !fits {
+                rejected += 1;
+            }
+            let real = real_expression(&text);
+            // the real literal: its f64 must be the nearest DOUBLE to the digits (Rust's parse), finite
+            let nearest: f64 = t.parse::<f64>().map(|f| if *neg { -f } else { f }).unwrap_or(f64::NAN);
+            let got = match &real {
+                Ok(Expression::DoubleLiteral(f)) if f.is_finite() && f.to_bits() == nearest.to_bits() => {
+                    format!("(double {}{})", if *neg { "-" } else { "" }, stripped)
+                }
+                Ok(Expression::DoubleLiteral(f)) => format!("(double-bits {:?} nearest {:?})", f, nearest),
+                Ok(other) => format!("not-a-double-literal {:?}", other),
+                Err(e) if e == "parse-error Overflow" => "overflow".to_owned(),
+                Err(e) => format!("error {}", e),
+            };
+            if got != expected {
+                rep.fail(Failure {
+                    kind: Kind::ImplVsProperty,
+                    signature: if got.contains("inf") { "literal:dec.huge:not-finite".into() } else { "literal:dec.huge".into() },
+                    input: format!("PRINT {}", text),
+                    implementation: got.clone(),
+                    expected: expected.clone(),
+                    note: "digits beyond the LONG range: the DOUBLE nearest to the written value, or Overflow when that is not finite".into(),
+                });
+            }
+            if *model != expected {
+                rep.fail(Failure {
+                    kind: Kind::ModelVsImpl,
+                    signature: "model:literal:dec.huge".into(),
+                    input: format!("PRINT {}", text),
+                    implementation: got,
+                    expected: model.clone(),
+                    note: "RbModel.Expr.processDec (dblOverflow) vs the property decided on the digit string".into(),
+                });
+            }
+        }
+        rep.bump_by("literal.dec.huge.rejected-overflow", rejected);
+    }
     // fractions: SINGLE without suffix, DOUBLE with '#'; the value is the exact decimal rounded to nearest-even
     // (RbModel.FloatLit.fracLit / negFracLit, proved in Thm.C10Float), compared bit for bit; Rust's own
     // `str::parse` of the same text decides which side a disagreement belongs to
@@ -1075,7 +1175,8 @@ fn main() {
         let answers = ask(&reqs);
         let texts: Vec<String> = fcs.iter().map(|c| c.text()).collect();
         let parsed = batch_expressions(&texts);
-        let mut inf_seen = 0u64;
+        let mut rejected = 0u64;
+        let mut rejected_by_type = [0u64; 2];
         for ((c, model), real) in fcs.iter().zip(answers.iter()).zip(parsed.iter()) {
             let text = c.text();
             let trivial = c.int_digits.trim_start_matches('0').is_empty() && c.frac_digits.trim_start_matches('0').is_empty();
@@ -1088,12 +1189,30 @@ fn main() {
             let got = frac_lit_string(real);
             let unsigned = format!("{}.{}", if c.int_digits.is_empty() { "0" } else { &c.int_digits }, c.frac_digits);
             let std = if c.pound {
-                unsigned.parse::<f64>().map(|f| f64_string(if c.neg { -f } else { f })).unwrap_or_else(|e| format!("error {:?}", e))
+                unsigned
+                    .parse::<f64>()
+                    .map(|f| if f.is_finite() { f64_string(if c.neg { -f } else { f }) } else { "overflow".to_owned() })
+                    .unwrap_or_else(|e| format!("error {:?}", e))
             } else {
-                unsigned.parse::<f32>().map(|f| f32_string(if c.neg { -f } else { f })).unwrap_or_else(|e| format!("error {:?}", e))
+                unsigned
+                    .parse::<f32>()
+                    .map(|f| if f.is_finite() { f32_string(if c.neg { -f } else { f }) } else { "overflow".to_owned() })
+                    .unwrap_or_else(|e| format!("error {:?}", e))
             };
-            if model.ends_with("inf)") {
-                inf_seen += 1;
+            if model == "overflow" {
+                rejected += 1;
+                rejected_by_type[c.pound as usize] += 1;
+            }
+            // the property by itself, whatever the model says: a literal is never an infinity or a NaN
+            if got.ends_with("inf)") || got.ends_with("nan)") {
+                rep.fail(Failure {
+                    kind: Kind::ImplVsProperty,
+                    signature: "literal:fraction:not-finite".into(),
+                    input: format!("PRINT {}", text),
+                    implementation: got.clone(),
+                    expected: "a finite literal or the parse error Overflow".into(),
+                    note: "a numeric literal denotes exactly its written value: no written value is an infinity".into(),
+                });
             }
             if std != *model {
                 rep.fail(Failure {
@@ -1102,7 +1221,7 @@ fn main() {
                     input: format!("{}  {}", text, c.request()),
                     implementation: std.clone(),
                     expected: model.clone(),
-                    note: "RbModel.FloatLit.fracLit / negFracLit vs Rust's str::parse::<f32/f64> of the same text".into(),
+                    note: "RbModel.FloatLit.fracLit / negFracLit vs Rust's str::parse::<f32/f64> of the same text (not finite = overflow)".into(),
                 });
             }
             if got != *model {
@@ -1118,7 +1237,9 @@ fn main() {
                 });
             }
         }
-        rep.bump_by("literal.fraction.inf-literal-observed", inf_seen);
+        rep.bump_by("literal.fraction.rejected-overflow", rejected);
+        rep.bump_by("literal.fraction.rejected-overflow.single", rejected_by_type[0]);
+        rep.bump_by("literal.fraction.rejected-overflow.double", rejected_by_type[1]);
         rep.sample(J::s(format!("{} -> {}", fcs[fcs.len() / 2].text(), answers[fcs.len() / 2])));
     }
     // fixed texts: the printed form of the literal, and the paths around `--` / `-&H`
